@@ -4,6 +4,8 @@ from lib import std_flow
 def key(d):
     if d.get("table") == "compat":
         return "compat-table"
+    if d.get("table") == "remove":
+        return "remove-verdict"
     return "history-mismatch"
 
 
@@ -11,7 +13,7 @@ def run(ctx):
     ctx.assumptions += [
         "the host discards code updates and ledger writes of a failed transaction and keeps no checked programs across executions "
         "(the harness snapshots/restores lib.Host.Codes and the ledger, resets Iface.Programs)",
-        "update compatibility is a 7x7 table over the generated declaration shapes, compared with the real validator on every run",
+        "update compatibility and removability are functions of the source's field variant and nested declaration list, compared with the real validator / removeContract on a pool of sources on every run",
         "Coq model C26/Model.v is hand-written in the shape of stdlib/account.go + runtime/storage.go; tied by this run's correspondence",
     ]
     std_flow(ctx, "c26", coq_targets=["C26/Cases"], mismatch_key=key)
